@@ -72,6 +72,17 @@ func evalTree(n *node, vars variables.IVariableCollection, funcs functions.IFunc
 		if f == nil {
 			return nil, &evalErr{"function not found"}
 		}
+		if strings.EqualFold(identName(n.Tok), "Sum") && len(args) >= 2 {
+			// "Sum over all arguments": the variant addition folded over the arguments in written order
+			acc := args[0]
+			for _, a := range args[1:] {
+				var err error
+				if acc, err = ops.Add(acc, a); err != nil {
+					return nil, err
+				}
+			}
+			return acc, nil
+		}
 		return f.Calculate(args, ops)
 	}
 	var kids []*variants.Variant
@@ -253,6 +264,16 @@ func checkC01(c c01Case) *evid.Fail {
 			return evid.F("value-mismatch:second-assignment", "%q parsed once: back under the first assignment the calculator returns %s, before %s", text, g1, results[len(results)-1])
 		}
 	}
+	// a function collection of the caller's that is empty is not "no collection": every call is a missing function
+	if wantPanic == nil && lastCalc != nil && hasOp(c.Tree, "call") {
+		var v *variants.Variant
+		var e error
+		if g := guard(func() {
+			v, e = lastCalc.EvaluateUsingVariablesAndFunctions(makeVars(c.Vars), functions.NewFunctionCollection())
+		}); g == nil && e == nil {
+			return evid.F("empty-function-collection-ignored", "%q evaluated with an empty function collection gives %s; every function it calls is missing there", c.Texts[len(c.Texts)-1], fromVariant(v))
+		}
+	}
 	// the other entry points: constructor from text, default variables + Evaluate(), token-list entry
 	allBound := true
 	var unbound func(n *node)
@@ -411,7 +432,7 @@ const c01Rule = "syntax tree generated by grammar level x three printings (minim
 var c01VarNames = []string{"a", "bb", "tot", "d_1", "eve"}
 
 // C01 alone also uses a name that can only be written as a quoted identifier with two escapes
-var c01AllVarNames = append(append([]string{}, c01VarNames...), "q\"r\"s")
+var c01AllVarNames = append(append([]string{}, c01VarNames...), "q\"r\"s", "true", "Not")
 
 func genC01Value(t *rapid.T) val {
 	switch rapid.IntRange(0, 11).Draw(t, "vk") {
@@ -446,7 +467,11 @@ func c01GenCfg() *genCfg {
 // c01IdentGen writes an identifier plain or as a quoted identifier ("..." with doubled inner quotes); a name that
 // is not a plain word can only be written quoted.
 func c01IdentGen(t *rapid.T, base string) string {
-	if strings.Contains(base, "\"") || rapid.IntRange(0, 7).Draw(t, "quoted") == 0 {
+	keyword := false
+	for _, k := range exprKeywords {
+		keyword = keyword || strings.EqualFold(k, base)
+	}
+	if strings.Contains(base, "\"") || keyword || rapid.IntRange(0, 7).Draw(t, "quoted") == 0 {
 		return "\"" + strings.ReplaceAll(base, "\"", "\"\"") + "\""
 	}
 	return base
